@@ -236,8 +236,24 @@ impl<Base: Image> Artifact<Base> {
         bail!("Layer of digest {} not found", digest)
     }
 
+    /// Get the layer of the digest with the media type. Layers are content-addressed,
+    /// i.e. layers of different media types share a digest if their blobs are identical.
+    fn get_typed_layer(
+        &mut self,
+        digest: &Digest,
+        media_type: &MediaType,
+    ) -> Result<(Descriptor, Vec<u8>)> {
+        for (desc, blob) in self.0.get_layers()? {
+            if desc.digest() == &digest.to_string() && desc.media_type() == media_type {
+                return Ok((desc, blob));
+            }
+        }
+        // Not found as `media_type`: report the layer of another type if exists
+        self.get_layer(digest)
+    }
+
     pub fn get_solution(&mut self, digest: &Digest) -> Result<(v1::State, SolutionAnnotations)> {
-        let (desc, blob) = self.get_layer(digest)?;
+        let (desc, blob) = self.get_typed_layer(digest, &media_types::v1_solution())?;
         ensure!(
             desc.media_type() == &media_types::v1_solution(),
             "Layer {digest} is not an ommx.v1.Solution: {}",
@@ -253,7 +269,7 @@ impl<Base: Image> Artifact<Base> {
         &mut self,
         digest: &Digest,
     ) -> Result<(v1::SampleSet, SampleSetAnnotations)> {
-        let (desc, blob) = self.get_layer(digest)?;
+        let (desc, blob) = self.get_typed_layer(digest, &media_types::v1_sample_set())?;
         ensure!(
             desc.media_type() == &media_types::v1_sample_set(),
             "Layer {digest} is not an ommx.v1.SampleSet: {}",
@@ -266,7 +282,7 @@ impl<Base: Image> Artifact<Base> {
     }
 
     pub fn get_instance(&mut self, digest: &Digest) -> Result<(v1::Instance, InstanceAnnotations)> {
-        let (desc, blob) = self.get_layer(digest)?;
+        let (desc, blob) = self.get_typed_layer(digest, &media_types::v1_instance())?;
         ensure!(
             desc.media_type() == &media_types::v1_instance(),
             "Layer {digest} is not an ommx.v1.Instance: {}",
@@ -282,7 +298,7 @@ impl<Base: Image> Artifact<Base> {
         &mut self,
         digest: &Digest,
     ) -> Result<(v1::ParametricInstance, ParametricInstanceAnnotations)> {
-        let (desc, blob) = self.get_layer(digest)?;
+        let (desc, blob) = self.get_typed_layer(digest, &media_types::v1_parametric_instance())?;
         ensure!(
             desc.media_type() == &media_types::v1_parametric_instance(),
             "Layer {digest} is not an ommx.v1.ParametricInstance: {}",
